@@ -39,6 +39,12 @@ type Engine struct {
 	implCache   map[string][]types.Type
 	specErrs    []string
 	sentinelList []*ssa.Global
+	keyInfo     map[string]keyInfo
+	immPrefixes []string
+	immProblems []string
+	immChecked  bool
+	reachCache  map[string]bool
+	cbFree      map[*types.Package]bool
 	loadErrs    []string
 }
 
@@ -52,7 +58,7 @@ func loadEngine(repo string) (*Engine, error) {
 	e := &Engine{repo: repo, pkgByName: map[string]*ssa.Package{}, fnByKey: map[string][]*ssa.Function{},
 		tags: map[string]int{}, tagTypes: map[int]types.Type{}, ufuncs: map[string]UFunc{}, maxVC: 400000,
 		fnIDs: map[*ssa.Function]int{}, loopCache: map[*ssa.Function]map[*ssa.BasicBlock]map[*ssa.BasicBlock]bool{},
-		implCache: map[string][]types.Type{}}
+		implCache: map[string][]types.Type{}, keyInfo: map[string]keyInfo{}, reachCache: map[string]bool{}, cbFree: map[*types.Package]bool{}}
 	for _, p := range pkgs {
 		for _, pe := range p.Errors {
 			e.loadErrs = append(e.loadErrs, pe.Error())
@@ -88,6 +94,7 @@ func loadEngine(repo string) (*Engine, error) {
 	}
 	e.contracts = loadContracts(repo)
 	e.initLib()
+	e.initImmutables()
 	return e, nil
 }
 
@@ -489,7 +496,7 @@ func (s *State) checkPost(res []Val) {
 			s.oblige(kind, nil, n, v.S, en.Src, true)
 		}
 	}
-	s.cover("cover:exit", c.paths, "return path reachable")
+	s.cover("cover:exit", 0, "return path reachable")
 }
 
 // collectEntryTerms lists the scalar facts about the entry state that a replay needs:
@@ -510,6 +517,14 @@ func (c *FnCtx) collectEntryTerms(s *State) {
 			continue
 		}
 		add(p.Name(), v)
+		if kindOf(v.T) == kStr {
+			for _, f := range []string{"nl", "vlen", "blen"} {
+				c.entryTerms = append(c.entryTerms, entryTerm{p.Name() + "." + f, sInt, app(f, v.S)})
+			}
+			for _, f := range []string{"clean", "wf"} {
+				c.entryTerms = append(c.entryTerms, entryTerm{p.Name() + "." + f, sBool, app(f, v.S)})
+			}
+		}
 		if pt := derefType(p.Type()); pt != nil {
 			if st, ok := pt.Underlying().(*types.Struct); ok && v.S != "" {
 				for i := 0; i < st.NumFields(); i++ {
@@ -523,4 +538,239 @@ func (c *FnCtx) collectEntryTerms(s *State) {
 			}
 		}
 	}
+}
+
+type keyInfo struct {
+	pkg     *types.Package
+	private bool
+}
+
+// reaches: package q can execute code of package p through its import graph.
+func (e *Engine) reaches(q, p *types.Package) bool {
+	if q == p {
+		return true
+	}
+	k := q.Path() + ">" + p.Path()
+	if v, ok := e.reachCache[k]; ok {
+		return v
+	}
+	e.reachCache[k] = false
+	r := false
+	for _, imp := range q.Imports() {
+		if e.reaches(imp, p) {
+			r = true
+			break
+		}
+	}
+	e.reachCache[k] = r
+	return r
+}
+
+// callbackFree: package p never hands out closures, function values or interface values of its own
+// types, so code outside p can run p's code only by calling p's functions directly.
+func (e *Engine) callbackFree(p *types.Package) bool {
+	if v, ok := e.cbFree[p]; ok {
+		return v
+	}
+	res := true
+	sp := e.prog.Package(p)
+	if sp == nil {
+		e.cbFree[p] = false
+		return false
+	}
+	declaredHere := func(t types.Type) bool {
+		if pt, ok := t.(*types.Pointer); ok {
+			t = pt.Elem()
+		}
+		n, ok := t.(*types.Named)
+		return ok && n.Obj().Pkg() == p
+	}
+	for fn := range e.allFns {
+		if pkgOf(fn) != sp {
+			continue
+		}
+		for _, b := range fn.Blocks {
+			for _, in := range b.Instrs {
+				switch x := in.(type) {
+				case *ssa.MakeInterface:
+					if declaredHere(x.X.Type()) {
+						res = false
+					}
+				case *ssa.MakeClosure:
+					for _, ref := range *x.Referrers() {
+						switch r := ref.(type) {
+						case *ssa.Go:
+						case *ssa.Call:
+							if r.Call.Value != x {
+								res = false
+							}
+						case *ssa.DebugRef:
+						default:
+							res = false
+						}
+					}
+				}
+			}
+		}
+	}
+	e.cbFree[p] = res
+	return res
+}
+
+func (e *Engine) ifacePkgs(t types.Type) []*types.Package {
+	it, ok := t.Underlying().(*types.Interface)
+	if !ok {
+		return []*types.Package{nil}
+	}
+	var out []*types.Package
+	for _, impl := range e.implementers(it) {
+		if pt, ok := impl.(*types.Pointer); ok {
+			impl = pt.Elem()
+		}
+		if n, ok := impl.(*types.Named); ok && n.Obj().Pkg() != nil {
+			out = append(out, n.Obj().Pkg())
+		} else {
+			out = append(out, nil)
+		}
+	}
+	if len(out) == 0 {
+		out = append(out, nil)
+	}
+	return out
+}
+
+// ---------- "immutable after init" declarations ----------
+// `//@ immutable glob X` / `//@ immutable type T` in package p: the global / every field of T (and of the
+// anonymous structs nested in it) is written only by p's initialisation code. The engine checks this over the
+// whole module on every run (closed world) and then keeps these locations across havocs.
+
+func (e *Engine) initImmutables() {
+	if e.immChecked {
+		return
+	}
+	e.immChecked = true
+	type tset = map[string]bool
+	immTypes := tset{}
+	immGlobs := map[*ssa.Global]bool{}
+	pkgsOf := map[string]*ssa.Package{}
+	for _, im := range e.contracts.Immutables {
+		sp := e.pkgByName[im.Pkg]
+		if sp == nil {
+			e.immProblems = append(e.immProblems, im.Where+": unknown package "+im.Pkg)
+			continue
+		}
+		switch im.Kind {
+		case "glob":
+			g, ok := sp.Members[im.Name].(*ssa.Global)
+			if !ok {
+				e.immProblems = append(e.immProblems, im.Where+": no global "+im.Name)
+				continue
+			}
+			immGlobs[g] = true
+			e.immPrefixes = append(e.immPrefixes, "glob|"+sp.Pkg.Name()+"."+g.Name())
+		case "type":
+			tm, ok := sp.Members[im.Name].(*ssa.Type)
+			if !ok {
+				e.immProblems = append(e.immProblems, im.Where+": no type "+im.Name)
+				continue
+			}
+			var walk func(t types.Type)
+			walk = func(t types.Type) {
+				st, ok := t.Underlying().(*types.Struct)
+				if !ok {
+					return
+				}
+				k := typeKey(t)
+				if immTypes[k] {
+					return
+				}
+				immTypes[k] = true
+				pkgsOf[k] = sp
+				e.immPrefixes = append(e.immPrefixes, "fld|"+k+"|")
+				for i := 0; i < st.NumFields(); i++ {
+					walk(st.Field(i).Type())
+				}
+			}
+			walk(tm.Type())
+		}
+	}
+	if len(immTypes) == 0 && len(immGlobs) == 0 {
+		return
+	}
+	// allowed writers: functions of the declaring package that run only during initialisation
+	allowed := map[*ssa.Function]bool{}
+	for fn := range e.allFns {
+		if fn.Synthetic == "package initializer" || (fn.Name() == "init" || strings.HasPrefix(fn.Name(), "init#")) && fn.Signature.Recv() == nil {
+			allowed[fn] = true
+		}
+	}
+	// callers of every repository function
+	callers := map[*ssa.Function][]*ssa.Function{}
+	for g := range e.allFns {
+		for _, b := range g.Blocks {
+			for _, in := range b.Instrs {
+				for _, op := range in.Operands(nil) {
+					if f, ok := (*op).(*ssa.Function); ok && e.inRepo(f) {
+						callers[f] = append(callers[f], g)
+					}
+				}
+			}
+		}
+	}
+	changed := true
+	for changed {
+		changed = false
+		for fn, cs := range callers {
+			if allowed[fn] || fn.Object() == nil || fn.Object().Exported() {
+				continue
+			}
+			ok := true
+			for _, g := range cs {
+				if !allowed[g] {
+					ok = false
+				}
+			}
+			if ok {
+				allowed[fn] = true
+				changed = true
+			}
+		}
+	}
+	for fn := range e.allFns {
+		if !e.inRepo(fn) || allowed[fn] {
+			continue
+		}
+		for _, b := range fn.Blocks {
+			for _, in := range b.Instrs {
+				st, ok := in.(*ssa.Store)
+				if !ok {
+					continue
+				}
+				switch a := st.Addr.(type) {
+				case *ssa.Global:
+					if immGlobs[a] {
+						e.immProblems = append(e.immProblems, fmt.Sprintf("%s writes immutable global %s at %s", e.fnKey(fn), a.Name(), e.posOf(in)))
+					}
+				case *ssa.FieldAddr:
+					if pt := derefType(a.X.Type()); pt != nil && immTypes[typeKey(pt)] {
+						e.immProblems = append(e.immProblems, fmt.Sprintf("%s writes a field of immutable type %s at %s", e.fnKey(fn), pt, e.posOf(in)))
+					}
+				default:
+					if pt := derefType(st.Addr.Type()); pt != nil && immTypes[typeKey(pt)] {
+						e.immProblems = append(e.immProblems, fmt.Sprintf("%s overwrites a value of immutable type %s at %s", e.fnKey(fn), pt, e.posOf(in)))
+					}
+				}
+			}
+		}
+	}
+	sort.Strings(e.immProblems)
+}
+
+func (e *Engine) immutableKey(key string) bool {
+	for _, p := range e.immPrefixes {
+		if strings.HasPrefix(key, p) {
+			return true
+		}
+	}
+	return false
 }
